@@ -149,7 +149,7 @@ def run(repo: Repo, rep: Report, tier: str) -> None:
                 reason = "no identity item"
             elif "NotImplementedError" in htypes:
                 reason = "no handler bound"
-            elif ("not identity_verified", False) in conds and not any(h and h != "NotImplementedError" and "server_response" not in "".join(norm(s) for s in hh.body) for h, hh in zip(htypes, handlers)):
+            elif ("not identity_verified", False) in conds and not any(h and h != "NotImplementedError" and "server_response" not in "".join(norm(s) for s in enclosing(hh, (ast.Try,)).body) for h, hh in zip(htypes, handlers)):
                 reason = "positive verdict"
             rep.check(reason is not None, "identity-verdict", fqi, f"return {norm(p.ret)} via {htypes or conds[-2:]}", "the identity check accepts on a path that is neither 'no identity', 'no handler bound' nor 'positive verdict without exception'", mod=acse, node=p.ret)
         else:
